@@ -501,6 +501,11 @@ class CNF(SimpleSequence[Clause]):
     def assert_k_of_n(self, k: int, in_list: Sequence[Var]):
         # TODO DOC
         # TODO: Describe this function's purpose.
+        if k > len(in_list):
+            # More true variables than there are variables: unsatisfiable.
+            # (The bit comparison below would silently truncate `k`.)
+            self.prepend(CNF([Clause(in_list[0]), Clause(~in_list[0])]))
+            return
         in_binary =  int_to_binary(k)
         sum_bits = self.pop_count(in_list, len(in_binary)+1)
         # Add zero padding to the left.
@@ -522,6 +527,15 @@ class CNF(SimpleSequence[Clause]):
         self._inequality_assertion(False, k, in_list)
 
     def _inequality_assertion(self, assert_less_than: bool, k: int, in_list: Sequence[Var]):
+        # The subtraction below has no room for a sign bit when `k` is out of
+        # the count's range, so decide those cases directly.
+        if assert_less_than and k > len(in_list):
+            # The count is always less than `k`.
+            return
+        if not assert_less_than and k >= len(in_list):
+            # The count can never be greater than `k`.
+            self.prepend(CNF([Clause(in_list[0]), Clause(~in_list[0])]))
+            return
         in_binary = int_to_binary(k)
         sum_bits = self.pop_count(in_list, len(in_binary)+1)
         k_vars = self.get_n_fresh(len(in_binary))
